@@ -21,7 +21,7 @@ from vf.zoo import unit, vec
 
 ID = "C01"
 LEVEL = "exploration"
-BUDGET = {"quick": 384, "thorough": 3840}
+BUDGET = {"quick": 384, "thorough": 1920}
 MIN_NONTRIVIAL = {"quick": 20, "thorough": 300}
 RULE = (
     "Hypothesis draws a system (Euclidean / Gaussian-split with every metric type and explicit integrators incl. "
